@@ -1014,7 +1014,7 @@ func c18FreshSection(c *core.Ctx, n uint64) {
 func runC18(c *core.Ctx) {
 	c18Sequential(c)
 	c18FreshSection(c, c.N(2400, 60000))
-	coldSection(c, c.N(48, 1600), nil)
+	coldSection(c, c.N(100, 2000), nil)
 	// the same concurrent workload without the race detector: results only, more volume
 	reps := c.N(1, 12)
 	c.Section("concurrent-plain", uint64(len(c18Configs))*reps, func(cs *core.Case) {
@@ -1026,7 +1026,7 @@ func runC18(c *core.Ctx) {
 }
 
 func runC18Race(c *core.Ctx) {
-	coldSection(c, c.N(48, 1600), nil)
+	coldSection(c, c.N(100, 2000), nil)
 	reps := c.N(1, 3)
 	c.Section("concurrent-race", uint64(len(c18Configs))*reps, func(cs *core.Case) {
 		c.WatchdogOff(true)
